@@ -173,6 +173,10 @@ func buildDoc(d DocSpec) *docInst {
 			if m, ok := v.(map[string]interface{}); ok {
 				if src, ok := m[d.Subslice[1]].([]interface{}); ok && n <= len(src) {
 					m[d.Subslice[0]] = src[:n]
+					if n+1 <= len(src) {
+						// two windows over the same backing array, as an array of arrays
+						m["windows"] = []interface{}{src[:n], src[n+1:]}
+					}
 				}
 			}
 		}
